@@ -756,6 +756,11 @@ func (data *Data) UpdateSchema(database string, retentionPolicy string, mst stri
 		newSchema := NewCleanSchema(0)
 		msti.Schema = &newSchema
 	}
+	for i := range fieldToCreate {
+		if existVal, ok := (*msti.Schema)[fieldToCreate[i].GetFieldName()]; ok && int32(existVal.Typ) != fieldToCreate[i].GetFieldType() {
+			return ErrFieldTypeConflict
+		}
+	}
 	if SchemaCleanEn {
 		cleanSchema := msti.Schema
 		for i := range fieldToCreate {
